@@ -1,4 +1,5 @@
 // C16 - an allocation failure anywhere leaves every vector valid and memory uncorrupted
+#define HARNESS_MAIN_THREAD_CASES 1  // this harness owns its threads and per-thread baselines
 #define LEDGER_FAIL_SCALAR_NEW 1
 // The harness needs to look at a vector's storage pointer without dereferencing it (operator[] on a vector that claims a
 // size but has no storage is already undefined). All standard and GSL headers are included first, then the library header
